@@ -15,7 +15,7 @@ RULE = ("case 'sig' = (format out of dbc, dbf, sym, kcd, json, xls, arxml; for j
         "Motorola signals at any non-overlapping placement, standard and extended ids, simple multiplexing; one of its signals): the "
         "position number stored in the file (extracted by a mini-parser for dbc, dbf, sym, kcd, json), and start/width/byte order of "
         "the signal after reading the file back. case 'frame' = presence of the frame (identifier + format) after the round trip. "
-        "30 % of the extended frames are flagged J1939. Half of the matrices are built with the extended flag as the integer 1 (as the readers set it), signed signals name negative raw values in their value tables, identifier numbers occur in both formats, frames longer than 8 bytes in every format. 40 % of the matrices name one to three of their ECUs, 20 % one frame and 20 % one signal with a word that contains the text of a keyword, column heading, tag or attribute of one of the file formats (BRIDGE, VIDEO, Motor_ID, CycleCtrl, ValueSrv, BO_Gw, SG_1, Mux, Var, Type, Message, Producer, START_MSG ...); one matrix in twelve is written and read through a file path (dumpp/loadp, format taken from the extension) instead of a byte buffer. case 'bus' = a cluster of 1..3 buses for KCD/ARXML; in KCD the names of frames and signals are local to a bus in half of the clusters (the same names on every bus), and most clusters with several buses carry one or two routed frames: a frame of one bus (same identifier, format and name) also on another bus, as an equal copy, as the very same Frame object, or (KCD) with other signals and length. Non-trivial = distinct case with a Motorola signal or a signal wider than one bit.")
+        "30 % of the extended frames are flagged J1939. Half of the matrices are built with the extended flag as the integer 1 (as the readers set it), signed signals name negative raw values in their value tables, identifier numbers occur in both formats, frames longer than 8 bytes in every format. 40 % of the matrices name one to three of their ECUs, 20 % one frame and 20 % one signal with a word that contains the text of a keyword, column heading, tag or attribute of one of the file formats (BRIDGE, VIDEO, Motor_ID, CycleCtrl, ValueSrv, BO_Gw, SG_1, Mux, Var, Type, Message, Producer, START_MSG ...); three matrices in ten have plain signals (factor 1, offset 0, no unit, mostly no value table, some shrunk to 1 bit flags, some with explicit limits 0..1 / 0..0) for which the writers omit optional elements; one matrix in twelve is written and read through a file path (dumpp/loadp, format taken from the extension) instead of a byte buffer. case 'bus' = a cluster of 1..3 buses for KCD/ARXML; in KCD the names of frames and signals are local to a bus in half of the clusters (the same names on every bus), and most clusters with several buses carry one or two routed frames: a frame of one bus (same identifier, format and name) also on another bus, as an equal copy, as the very same Frame object, or (KCD) with other signals and length. Non-trivial = distinct case with a Motorola signal or a signal wider than one bit.")
 PARTIAL = ["only the field kernels (position and identifier numbers) carry theorems; file assembly, XML plumbing and reference "
            "resolution are tied by this correspondence check only",
            "multi-bus files (KCD/ARXML, 2..3 buses) are compared per bus on the layout normal form (case 'bus')",
@@ -40,6 +40,7 @@ def gen(rng, tier, shard, nshards, rich=False):
         if fmt == "arxml" and rng.random() < 0.4:
             wn = "3.2.3"          # the other AUTOSAR version the writer offers (default 4.1.0)
         desc = R.gen_case_matrix(rng, fmt, rich)
+        plain_signals(rng, desc, fmt)
         keyword_names(rng, desc, fmt, wn, rich)
         # the same round trip through a file path (dumpp / loadp pick the format by the extension) instead of a byte buffer
         via = "path" if rng.random() < 0.08 else "bytes"
@@ -81,6 +82,31 @@ def signal_word_ok(fmt, wn, rich, word):
     are kept, so the layout stream (C06) has these names; the value stream (C07, `rich`) does not.  Reported as a finding of the
     strengthening round."""
     return True          # (ARXML 3.2.3: see the open finding C07-arxml3-signal-named-like-package, recognised by c07.classify)
+
+
+def plain_signals(rng, desc, fmt):
+    """Signals about which there is nothing to say (in place): three matrices in ten have signals with factor 1, offset 0, no unit and
+    mostly no value table - status flags, counters, raw fields.  A writer leaves out what equals the format's default (KCD the whole
+    <Value> element, SYM the /f: /o: /u: switches, ARXML the COMPU-METHOD / UNIT, DBF and DBC nothing), so the reader's own defaults decide
+    what comes back.  Some of them shrink to a 1 bit flag at the same start bit (a subset of the bits they had, so nothing overlaps),
+    some carry the explicit limits 0..1 or 0..0 that a flag has (for a wider signal these are also what the KCD writer takes as
+    `nothing to say`).  Signed and unsigned alike; the multiplexer itself is already plain."""
+    if rng.random() >= 0.3:
+        return
+    p = rng.choice([0.3, 0.6, 1.0])
+    for f in desc["frames"]:
+        for s in f["signals"]:
+            if s["mux"] == "Multiplexor" or rng.random() >= p:
+                continue
+            s["factor"], s["offset"], s["unit"] = "1", "0", ""
+            if not s["float"] and rng.random() < 0.3:
+                s["size"] = 1
+            lo, hi = (0, 0) if s["float"] else (-(1 << (s["size"] - 1)), (1 << (s["size"] - 1)) - 1) if s["signed"] else (0, (1 << s["size"]) - 1)
+            s["values"] = {} if rng.random() < 0.7 else {k: v for k, v in s["values"].items() if lo <= int(k) <= hi}
+            if not s["float"] and rng.random() < 0.3:
+                s["min"], s["max"] = rng.choice([("0", "1"), ("0", "1"), ("0", "0")])
+            if rng.random() < 0.3:
+                s["receivers"] = []
 
 
 def keyword_names(rng, desc, fmt, wn="lsb", rich=False):
@@ -290,6 +316,12 @@ def features(case, impl):
     if case["op"] == "sig":
         d = c["sig"]
         yield "%s:%s%s" % (c["fmt"], "intel" if d[3] else "motorola", "/float" if d[5] else "")
+        for f in fr:
+            for t in f["signals"]:
+                if f["id"] == c["fid"] and f["ext"] == c["ext"] and t["name"] == c["sname"] and t["mux"] != "Multiplexor" \
+                        and (t["factor"], t["offset"], t["unit"]) == ("1", "0", ""):
+                    yield "sig:plain/%s/%s%s%s" % (c["fmt"], "float" if t["float"] else "signed" if t["signed"] else "unsigned", "/1bit" if t["size"] == 1 else "",
+                                                  "/limits=%s..%s" % (t["min"], t["max"]) if t.get("min") is not None else "")
         if impl.get("exc"):
             yield "exception:" + c["fmt"]
 
